@@ -5,10 +5,14 @@
   the function the driver prints for the `truth` stream), to exactly what it encodes — and to nothing
   else.  Helper lemmas: Rsdns/Lemmas/PassDecode.lean.
 
-  Not covered by this theorem (decided by the `truth` ground-truth oracle + correspondence): the
-  `MessageIterator` API, and messages larger than 65535 bytes (which `MessageReader::new` refuses).
+  `iter_decode_wellformed` is the same statement for the `MessageIterator` API (`new`, `question`,
+  `questions`, `records`): exactly the records of the 17 data types with a defined CLASS are yielded,
+  OPT and unknown types/classes are passed over in silence, nothing else is reported.
+  Both theorems are about messages of at most 65535 bytes (`MessageReader::new` refuses larger ones; the
+  section offsets are `u16`).
 -/
 import Rsdns.Lemmas.PassDecode
+import Rsdns.Lemmas.IterDecode
 
 set_option linter.unusedVariables false
 
@@ -148,5 +152,96 @@ example : ∃ r, Reader.pass sample =
   obtain ⟨r, h, _⟩ := decode_wellformed sample _ _ _ sample_msgAt
   exact ⟨r, h⟩
 
+
+/-- **C02, whole message, `MessageIterator` API.**  For every well-formed message (`MsgAt`) in which
+    QTYPE-only codes do not occur as record types: `MessageIterator::new` succeeds with the encoded
+    header; `questions()` yields exactly the encoded questions; `question()` the first of them;
+    `records()` yields exactly the encoded records of the 17 data types whose CLASS is a defined one —
+    owner, class, type, TTL, every RDATA field, and the section by the header counts — in wire order,
+    passes over OPT and unknown types/classes in silence, and reports no error. -/
+theorem iter_decode_wellformed (msg : Bytes) (h : Header) (qs : List QSpec) (rs : List RecSpec)
+    (hm : MsgAt msg h qs rs) (hraw : ∀ x ∈ rs, x.body = .raw → isDefined TYPE_KNOWN x.rtype = false) :
+    ∃ mi, MsgIter.new msg = .ok mi ∧ mi.header = h ∧
+      mi.questions msg = .ok (qs.map (fun q => .ok q.question)) ∧
+      mi.question msg = (match qs with
+        | [] => .err (.badQuestionsCount 0)
+        | q :: _ => .ok q.question) ∧
+      mi.records msg = .ok ((keptRecords h 0 rs).map .ok) := by
+  obtain ⟨qe, e, hqs, hrs⟩ := hm.layout
+  have hL := layOf_wf msg h qs rs hm qe e hqs hrs
+  obtain ⟨hr0, _, _, hrall, _⟩ := hrs.chain
+  have hok : Cur.OK msg (Cur.new msg) := Cur.OK.new msg
+  have hhf := header_fields msg (Cur.new msg) hok (by simp only [Cur.new]; have := hm.hlen; omega)
+  have hhf' : readHeader msg (Cur.new msg) = (.ok h, { lim := msg.size, pos := 12, orig := none }) := by
+    rw [hhf]
+    have e1 := hm.id; have e2 := hm.flags; have e3 := hm.qd; have e4 := hm.an; have e5 := hm.ns; have e6 := hm.ar
+    obtain ⟨id, fl, qd, an, ns, ar⟩ := h
+    simp only at e1 e2 e3 e4 e5 e6
+    simp only [Cur.new, Nat.zero_add, e1, e2, e3, e4, e5, e6]
+  have hsk := skipN_questions msg qs 12 qe hqs
+  rw [← hm.nq] at hsk
+  have hnew : MsgIter.new msg = .ok { header := h, answersOffset := qe } := by
+    simp only [MsgIter.new, hhf', Cur.withPos, HEADER_LENGTH, hsk]
+  refine ⟨_, hnew, rfl, ?_, ?_, ?_⟩
+  · have := questionsDrain_decode msg qs 12 qe [] hqs
+    simp only [MsgIter.questions, Cur.withPos, HEADER_LENGTH, hm.nq]
+    simpa using this
+  · cases qs with
+    | nil =>
+      have : h.qd = 0 := by rw [hm.nq]; rfl
+      simp [MsgIter.question, this]
+    | cons q qs' =>
+      have hne : ¬ h.qd = 0 := by rw [hm.nq]; simp
+      obtain ⟨hoff, hw, _⟩ := QsAt_cons_inv hqs
+      obtain ⟨hname, hfit, hty, hcl⟩ := hw
+      have hd := (question_decode msg { lim := msg.size, pos := q.off, orig := none } (Nat.le_refl _) q.labels q.nxt
+        hname hfit).1
+      rw [hoff] at hd
+      simp only [MsgIter.question, hne, if_false, Cur.withPos, HEADER_LENGTH, hd, QSpec.question, ← hty, ← hcl]
+  · -- records
+    let L := layOf h qs rs e
+    have hT : TInv L (Tracker.new h) := by
+      apply TInv.init L (Tracker.new h)
+      · rfl
+      · simp [Tracker.new, L, layOf]
+      · simp [Tracker.new, L, layOf]
+      · simp [Tracker.new, L, layOf]
+      · intro j; simp only [Tracker.new]; split <;> (try split) <;> (try split) <;> rfl
+      · intro j; rfl
+    have hidx0 : idx (Tracker.new h) = 0 := by simp [idx, Tracker.new]
+    have hA : AtIdx msg L (Cur.withPos msg qe) (Tracker.new h) := by
+      refine ⟨?_, hT⟩
+      rw [hidx0]
+      show Cur.withPos msg qe = Cur.withPos msg (rOffFn rs e 0)
+      rw [hr0]
+    have hn : idx (Tracker.new h) + rs.length = L.n := by
+      rw [hidx0, Nat.zero_add, ← hm.nr]; rfl
+    have hc : ChainAt msg L (idx (Tracker.new h)) rs := by
+      rw [hidx0]
+      apply chainAt_of_get
+      intro j hj
+      obtain ⟨x, hx, hw, ho, he⟩ := hrall j hj
+      refine ⟨x, hx, hw, by rw [Nat.zero_add]; exact ho, by rw [Nat.zero_add]; exact he, hraw x ?_⟩
+      exact List.mem_of_getElem? hx
+    have hleft : trackerLeft (Tracker.new h) = rs.length := by rw [trackerLeft_eq hT]; omega
+    have := recordsDrain_decode msg L hL rs.length rs (Cur.withPos msg qe) (Tracker.new h) []
+      (trackerLeft (Tracker.new h) + 1) (Nat.le_refl _) hA hn (by omega) hc
+    simp only [MsgIter.records, this, List.reverse_nil, List.nil_append, hidx0]
+    rw [keptFrom_eq]
+
+
+example : ∃ mi, MsgIter.new sample = .ok mi ∧
+    mi.records sample = .ok [.ok { section_ := 0, name := #[97, 46], rclass := 1, rtype := 1, ttl := 60,
+                                   rdata := .a 0x01020304 }] := by
+  obtain ⟨mi, h1, _, _, _, h5⟩ := iter_decode_wellformed sample _ _ _ sample_msgAt (by
+    intro x hx hb
+    simp only [List.mem_singleton] at hx
+    subst hx
+    cases hb)
+  have hk : keptRecords { id := 0x1234, flags := 0x8180, qd := 1, an := 1, ns := 0, ar := 0 } 0 [sampleR] =
+      [{ section_ := 0, name := #[97, 46], rclass := 1, rtype := 1, ttl := 60, rdata := .a 0x01020304 }] := by
+    decide +kernel
+  rw [hk] at h5
+  exact ⟨mi, h1, h5⟩
 
 end Rsdns.C02
